@@ -27,14 +27,11 @@ func (m *Module) Init(s *models.Session, p *models.Participant) {
 	m.currentSession = s
 	m.currentParticipant = p
 
-	state, ok := s.ModuleState(m.Name())
-	if !ok {
-		// The spatial partition is created once per session: it is shared by
-		// the participants and must survive later joins.
-		state = &State{SpatialPartition: NewRegularGrid(1, 1, 2)}
-		s.SetModuleState(m.Name(), state)
-	}
-	m.state = state.(*State)
+	// The spatial partition is created once per session: it is shared by the
+	// participants and must survive later joins.
+	m.state = s.ModuleStateOrSet(m.Name(), func() any {
+		return &State{SpatialPartition: NewRegularGrid(1, 1, 2)}
+	}).(*State)
 }
 
 func (m *Module) HandleMsg(ctx context.Context, respond hwebsocket.ResponseSender, msg hwebsocket.Msg) error {
